@@ -252,9 +252,11 @@ def run(ctx):
                 one(ctx, pf, cfg, json.dumps(batch), "position")
         pf.close(ctx, cfg)
     # stall sweep over the pool's enqueue / worker loop while notifications flow
-    pts = [pt for pt in poolcheck.stall_points() if pt["qualname"].endswith(("ThreadPool.enqueue", "ThreadPool.__run",
-                                                                             "ThreadPool.__start_thread"))]
-    pts = [dict(pt, role="main") if pt["role"] in ("controller", "enqueuer") else pt for pt in pts]
+    # points = the pool-module lines the worker threads and the dispatching thread were seen executing above
+    pts = [{"qualname": q, "line": l, "role": r, "k": k} for (q, l, r) in sorted(inj.seen) for k in (1, 2, 3)]
+    if not pts:
+        pts = [dict(pt, role="main") if pt["role"] in ("controller", "enqueuer") else pt
+               for pt in poolcheck.stall_points()]
     mine = [pt for i, pt in enumerate(pts) if ctx.mine(i)]
     rng.shuffle(mine)
     for pt in mine[:ctx.pick(25, 10 ** 6)]:
